@@ -173,3 +173,17 @@ Example c19_ex_unmet_need :
   let nd := mkNeed [105;100;105;111;109;97;116;105;99] [117;115;101;45;105;102] s_warning_sev NeedKeywordIf in
   In nd needs_table /\ need_unmet (nd_need nd) c19_ex_old_target (mkFile true false) = true.
 Proof. split; [vm_compute; tauto | reflexivity]. Qed.
+
+(* the needs of the tree read 7 dimensions (3 built-in functions, 2 future keywords, 2 features); the 128 targets built
+   from their on/off assignments cover them, a single target does not *)
+Definition caps_of_assignment (a : list (dim * bool)) : caps :=
+  mkCaps (flat_map (fun db => match db with (DBuiltin n, true) => [n] | _ => [] end) a)
+         (flat_map (fun db => match db with (DKeyword n, true) => [n] | _ => [] end) a)
+         (flat_map (fun db => match db with (DFeature n, true) => [n] | _ => [] end) a).
+
+Example c19_nonvacuous_dimensions :
+  length (table_dims needs_table) = 7%nat /\
+  length (assignments (table_dims needs_table)) = 128%nat /\
+  dims_covered needs_table (map caps_of_assignment (assignments (table_dims needs_table))) = true /\
+  dims_covered needs_table [mkCaps [] [] []] = false.
+Proof. repeat split; vm_compute; reflexivity. Qed.
